@@ -48,7 +48,41 @@ def examine(case):
 def run_shard(spec, shard):
     tier = spec["tier"]
 
+    def wide_case(r):
+        """A filter over a wide container of look-alike values (1 / true / 1.0 / "1" ...) and small records,
+        comparing the child (or a member of it) with a look-alike literal or with another child."""
+        w = V.wide(r, names=NAMES)
+        doc = r.choice([w, {"a": w, "b": 1}, [w, [1, True]]])
+        pre = "" if doc is w else (".a" if isinstance(doc, dict) else "[0]")
+        lits = ["1", "true", "1.0", "0", "false", "-0.0", "'1'", "null", "''", "'a'", "2", "10", "'10'", "1e0", "0.0"]
+        sub = r.choice(["@", "@", "@", "@.a", "@.b", "@[0]", "$%s[0]" % pre, "$%s[1]" % pre])
+        op = r.choice(["==", "==", "!=", "<", "<=", ">", ">="])
+        cmp_ = "%s %s %s" % ((sub, op, r.choice(lits)) if r.random() < 0.7 else (r.choice(lits), op, sub))
+        expr = r.choice([cmp_, cmp_, "!(%s)" % cmp_, "%s || @ == %s" % (cmp_, r.choice(lits)), "%s && @" % cmp_, sub if sub != "@" else cmp_])
+        seg = r.choice(["[?%s]", "[?%s]", "..[?%s]", "[?%s][0]"]) % expr
+        text = "$" + pre + seg
+        from vlib.ref import abnf
+        res = abnf.classify(text)
+        if res.verdict != abnf.VALID:
+            from vlib.runner import HarnessError
+            raise HarnessError(f"wide_case built an invalid query: {text!r}")
+        ast = res.ast
+        case = {"q": text, "ast": ast, "doc": doc}
+        if r.random() < 0.2:
+            case["exotic"] = r.randrange(1, 2**31)
+        e = ev.Evaluator()
+        e.filter_stats = []
+        res_nodes = e.query(ast, doc)
+        decisive = any(n >= 2 and 0 < k < n for n, k in e.filter_stats)
+        shard.case(key=(text, doc), nontrivial=decisive, classes={"wide-lookalike-container", "filter"} | ({"decisive-filter"} if decisive else set()),
+                   sample={"q": text, "doc": "wide container of %d children" % len(w), "selected": len(res_nodes)})
+        f = examine(case)
+        if f:
+            shard.fail(f["bucket"], case, f)
+
     def body(r):
+        if r.random() < 0.06:
+            return wide_case(r)
         doc = diff.make_doc(r, tier, names=NAMES, falsy_bias=0.35)
         ast, text, used = diff.make_query(r, shard, filters=True, names=NAMES, min_segs=1, max_segs=3, doc=doc,
                                           max_filter_depth=3 if tier == "thorough" else 2)
